@@ -10,7 +10,7 @@ if ! git -C "$WT" apply /verif/seeded/$ID/patch.diff 2>/dev/null && ! git -C "$W
 fi
 D=$(PYTHONPATH="$WT" timeout 300 /venv/bin/python /verif/seeded/$ID/demo.py >/dev/null 2>&1; echo $?)
 cd /verif
-CH=$(BUMBLE_REPO="$WT" timeout 1500 ./check "$PROP" --tier quick 2>/dev/null | grep -E "^VIOLATION|^KNOWN" | head -3)
+CH=$(BUMBLE_REPO="$WT" timeout 1500 ./check "$PROP" --tier quick 2>/dev/null | grep -E "^VIOLATION" | head -3)
 git -C /repo worktree remove --force "$WT"
 /venv/bin/python - "$ID" "$CH" "$NOTE" "$D" <<'PY'
 import json, sys
